@@ -309,10 +309,10 @@ def save_check(kind, case, rec):
 
 
 FAMILIES = [
-    Family("mesh", MESH_AXIS, mesh_check, strategy=mesh_strategy, n={"quick": 4, "thorough": 60}, chunk=20),
-    Family("container", ["2d", "3d"], cont_check, strategy=cont_strategy, n={"quick": 15, "thorough": 300}, chunk=15),
-    Family("job", ["hexahedron", "quad", "multibody"], job_check, strategy=job_strategy, n={"quick": 16, "thorough": 300}, chunk=4, weight=4),
-    Family("save", ["hexahedron", "quad", "tetra", "hexahedron20"], save_check, strategy=save_strategy, n={"quick": 8, "thorough": 100}, chunk=8),
+    Family("mesh", MESH_AXIS, mesh_check, strategy=mesh_strategy, n={"quick": 4, "thorough": 300}, chunk=20),
+    Family("container", ["2d", "3d"], cont_check, strategy=cont_strategy, n={"quick": 15, "thorough": 1500}, chunk=15),
+    Family("job", ["hexahedron", "quad", "multibody"], job_check, strategy=job_strategy, n={"quick": 16, "thorough": 1000}, chunk=4, weight=4),
+    Family("save", ["hexahedron", "quad", "tetra", "hexahedron20"], save_check, strategy=save_strategy, n={"quick": 8, "thorough": 600}, chunk=8),
 ]
 
 LEVEL_TEXT = (
